@@ -341,6 +341,14 @@ def check_header_writes(rep, http, cfg):
                'header writes only inside the enumeration of the shell\'s list',
                'in %s a header-writing side effect (%s) is not undone before the shell\'s headers are appended, or headers are '
                'written outside the enumeration' % (f.path, [last_seg(t['callee']) for _, t in side]), site=key + '@' + cfg)
+    # ... and each (name, value) of the shell's list is APPENDED: insert_header replaces what an earlier item of the same name (in
+    # whatever letter case) put there, so a repeated header would reach the app with only its last value (seeded: values grouped
+    # per case-sensitive name, then one insert_header per group)
+    inserts = [f.where(bb) for g_ in [f] + http.closures_of(f) for bb, t in g_.calls(HT + '::response::Response::insert_header', HT + '::headers::headers::Headers::insert')]
+    key = '%s|appended-not-inserted' % f.kpath
+    rep.expect('R15.e', not inserts, key, 'the shell\'s headers are written with append_header only (no value replaces another)',
+               'in %s a header is written with insert_header (%s): it replaces the values an earlier header of the same name put there, so '
+               'a repeated header loses all but its last value' % (f.path, inserts), site=key + '@' + cfg)
     g = response_new_body(http)
     if g is None:
         rep.missing('R15.e', 'Response::new body')
